@@ -449,6 +449,14 @@ func c39HookDiff(rec *c39Rec, calls []int) *c39Diff {
 	return nil
 }
 
+// c39NoFinalNewline: a third of the sources (chosen by their number of lines, not by the run) end without a newline: the last declaration is as much part of the file
+func c39NoFinalNewline(src string) string {
+	if strings.Count(src, "\n")%3 == 0 { // (the number of lines depends on the record only)
+		return strings.TrimRight(src, "\n")
+	}
+	return src
+}
+
 // c39CheckUnit runs one single-file record on interpreter ip; returns the disagreement, if any.
 func c39CheckUnit(ip *c39Interp, rec *c39Rec) (ds []*c39Diff, src, written string, err error) {
 	sfx := fmt.Sprint(atomic.AddInt64(&c39Serial, 1))
@@ -456,7 +464,7 @@ func c39CheckUnit(ip *c39Interp, rec *c39Rec) (ds []*c39Diff, src, written strin
 	if err != nil {
 		return nil, "", "", err
 	}
-	src = c39RenderFile(rec.Files[0], 1, sfx)
+	src = c39NoFinalNewline(c39RenderFile(rec.Files[0], 1, sfx))
 	text, calls, msgs, crash := c39UnitRun(ip, src, rec.Opts.D, rec.Opts.S)
 	if crash != "" {
 		return []*c39Diff{{kind: "file", shape: "crash", what: crash + "\n" + msgs}}, src, text, nil
@@ -487,7 +495,7 @@ func c39CheckFiles(rec *c39Rec, scratch string) (ds []*c39Diff, srcs, written []
 	defer os.RemoveAll(dir)
 	var args []string
 	for f, nodes := range rec.Files {
-		s := c39RenderFile(nodes, f+1, sfx)
+		s := c39NoFinalNewline(c39RenderFile(nodes, f+1, sfx))
 		srcs = append(srcs, s)
 		p := filepath.Join(dir, fmt.Sprintf("s%d.gomacro", f+1))
 		if err := os.WriteFile(p, []byte(s), 0o644); err != nil {
